@@ -363,8 +363,38 @@ def build_window(case, seed=0):
     return s.items
 
 
-def hetero_judge(expected_types, expected_ions):
+DNA_CUSTOM = {('DA', 'N1'): 3.82, ('DA', 'N3'): 3.82, ('DA', 'N7'): 3.82, ('DG', 'N1'): 9.59, ('DG', 'N3'): 9.59, ('DG', 'N7'): 9.59,
+              ('DC', 'N3'): 4.34, ('DT', 'N3'): 10.12}
+for _r in ('DA', 'DG', 'DC', 'DT'):
+    DNA_CUSTOM[(_r, 'OP1')] = 1.00
+    DNA_CUSTOM[(_r, 'OP2')] = 1.00
+
+
+def dna_fragment(res, nname, chain='N', resnum=5):
+    """Pseudo-nucleotide: an aromatic six-ring whose nitrogen carries the base atom name, plus a methyl phosphate whose
+    terminal oxygens are OP1/OP2 - enough to reach the per-residue custom model pKa table (no full nucleotide geometry)."""
+    ring = gen.ligand('PYR', chain, resnum, origin=(0, 0, 0))
+    cnames = [n for n in ('C2', 'C4', 'C5', 'C6', 'C8') if n != nname]
+    k = 0
+    for a in ring.atoms:
+        a.resname = '%-3s' % res
+        if a.element == 'N':
+            a.name4 = gen.name4(nname)
+        else:
+            a.name4 = gen.name4(cnames[k])
+            k += 1
+    pho = gen.ligand('MPO', chain, resnum, origin=(9000, 0, 0))
+    ren = {'P1': 'P', 'O1': 'OP1', 'O2': 'OP2', 'O3': 'O3P', 'O4': "O5'", 'C1': "C5'"}
+    for a in pho.atoms:
+        a.resname = '%-3s' % res
+        a.name4 = gen.name4(ren[a.name])
+    return gen.S(ring.items + pho.items).renumber_serials()
+
+
+def hetero_judge(expected_types, expected_ions, custom_models=None):
     """Oracle for ligand templates / ions: group type, model pKa, charge as configured for the type."""
+    custom_models = custom_models or {}
+
     def judge(mol, parsed):
         v = []
         conf = mol.conformations[mol.conformation_names[0]]
@@ -380,6 +410,9 @@ def hetero_judge(expected_types, expected_ions):
                 continue
             model, charge = gen.LIGAND_TYPES[typ]
             cfg_model = params.model_pkas.get(typ)
+            if (res, name) in custom_models:
+                model = custom_models[(res, name)]
+                cfg_model = params.custom_model_pkas.get('%s-%s' % (res, name))
             cfg_charge = params.charge.get(typ, 0)
             if model is None:
                 if g.titratable or cfg_model is not None:
@@ -409,6 +442,7 @@ def plan(tier, seed):
     windows = window_cases(tier)
     others = [dict(kind='ligand', name=n, ctx=c) for n in gen.TEMPLATES for c in ('alone', 'peptide')]
     others += [dict(kind='ion', name=n, ctx=c) for n in gen.IONS for c in ('alone', 'peptide')]
+    others += [dict(kind='dna', res=r, n=nn, ctx=c) for (r, nn) in sorted(DNA_CUSTOM) if nn.startswith('N') for c in ('alone', 'peptide')]
     others += [dict(kind='whole', key=k, chains=None) for k in (['3SGB', '1HPX'] if tier == 'quick' else list(gen.PROTEINS))]
     others += [dict(kind='whole', key='3SGB', chains=['E']), dict(kind='whole', key='3SGB', chains=['I']),
                dict(kind='whole', key='1HPX', chains=['B'])]
@@ -474,6 +508,17 @@ def run_case(case, ctx, acc):
             items = pep.items + ['TER\n'] + far.items
         cks, exp, mol = compare(case, items, (), acc, judge_hetero=hetero_judge(types, ions))
         acc.case(nontrivial_key=jhash(case), outcome='%s:%s' % (k, name))
+    elif k == 'dna':
+        frag = dna_fragment(case['res'], case['n'])
+        types = {(case['res'], case['n']): 'NAR', (case['res'], 'OP1'): 'OP', (case['res'], 'OP2'): 'OP', (case['res'], 'O3P'): 'OP',
+                 (case['res'], "O5'"): 'O3'}
+        custom = {kk: v for kk, v in DNA_CUSTOM.items() if kk[0] == case['res']}
+        items = frag.translate((10000, 10000, 10000)).items
+        if case['ctx'] == 'peptide':
+            pep = gen.S(build_window(dict(key='3SGB', chain='I', index=20, oxt=1)))
+            items = pep.items + ['TER\n'] + frag.translate((60000, 0, 0)).items
+        cks, exp, mol = compare(case, items, (), acc, judge_hetero=hetero_judge(types, {}, custom))
+        acc.case(nontrivial_key=jhash(case), outcome='dna:%s-%s' % (case['res'], case['n']))
     elif k == 'whole':
         lib = gen.library()
         text = lib.text(case['key'])
